@@ -115,7 +115,7 @@ def gabriel3(D, tol):
             m = D[i] + D[j] - D[i, j]
             m[i] = m[j] = np.inf
             mn = m.min() if n > 2 else np.inf
-            cert[i, j] = cert[j, i] = mn > tol
+            cert[i, j] = cert[j, i] = (mn > tol) if tol > 0 else (mn >= 0)
             poss[i, j] = poss[j, i] = mn >= -tol
     return cert, poss
 
@@ -192,8 +192,15 @@ def check(case, ctx):
     tol = 1e-9 * max(float(D.max()), 1e-300)
     cut = cutoffs(case, D) if case["mode"] == "cut" else None
     cert = poss = None
+    # small-integer coordinates without a cell: every squared distance is an exact integer in the oracle AND in the
+    # dot-product formula the estimator uses, so "a third point inside the ball" is decided exactly (a point ON the sphere,
+    # e.g. the corner of a lattice square, does not remove the edge)
+    exact = case["kind"] == "lattice" and cell is None and float(np.abs(X).max()) <= 64 and bool(np.all(X == np.round(X)))
+    gtol = 0.0 if exact else tol
+    if exact:
+        ctx.cls("exact_integer_regime")
     if case["mode"] == "gabriel":
-        cert, poss = gabriel3(D, tol)
+        cert, poss = gabriel3(D, gtol)
         Dm = np.array(D, copy=True)
         np.fill_diagonal(Dm, np.inf)
         with ctx.lib("_get_gabriel_graph"):
